@@ -22,7 +22,7 @@ namespace khizmax_libcds_verif {
 enum OpKind : uint8_t {
     K_LD = 0, K_ST, K_XCHG, K_CAS_OK, K_CAS_FAIL,
     K_ADD, K_SUB, K_AND, K_OR, K_XOR, K_FENCE,
-    K_CALL, K_RET, K_NOTE
+    K_CALL, K_RET, K_NOTE, K_PSEUDO
 };
 
 // scheduling point; returns true when the calling thread is scheduled (traced)
